@@ -6,6 +6,7 @@ ID = "C02"
 THEOREMS = ["Portus.C02.other_ignored", "Portus.C02.measure_unknown_ignored", "Portus.C02.report_delivered",
             "Portus.C02.close_once_and_forget", "Portus.C02.create_one_handler", "Portus.C02.ready_drops_only_that_address",
             "Portus.Rt.runUser_spec", "Portus.Rt.step_ok"]
+SPEC_IS_ORACLE = True  # the compared trace is what the property speaks about and is determined by the history
 KEEP = {"RX", "NF", "RP", "CL", "DR", "RES", "GF", "GFP"}
 RELATION = "callback trace (RX, new_flow, on_report with get_field values, close, drop, result) of RunBuilder::run over a scripted transport"
 RULE = ("histories of 1..30 (thorough: ..60) script items over 3 datapath addresses with deliberately coinciding flow ids: ready "
